@@ -315,6 +315,8 @@ def rule_negative(ctx, rep):
         rep.check(ln in lines, "C20.W6", what, "rejected at compile time", "uatomic accepts a %s operand: such an access cannot be a single atomic instruction" % what.split()[0], ["witness neg.c:%d" % ln])
 
 
+META["explanation"] += " " + 'Both flavours of the header (x86 asm and compiler builtins) are analysed on every run; literal identity operands (add 0, or 0, and ~0, xchg 0, cmpxchg(0,0)) are still one locked RMW and, where documented, a full barrier.'
+
 RULES = [
     ("C20.W7", rule_cmpd),
     ("C20.W8", rule_const),
